@@ -347,9 +347,10 @@ namespace occa {
             } else {
               std::string s = oklForSmnt.getIterationCount()->toString();
               if(s.find("_occa_tiled_") != std::string::npos) {
-                size_t tile_size = s.find_first_of("123456789");
-                OCCA_ERROR("@tile size is undefined!",tile_size != std::string::npos);
-                knownInnerDims[innerIndex] = std::stoi(s.substr(tile_size));
+                int tileCount = 0;
+                OCCA_ERROR("@tile size is undefined!",
+                           oklForSmnt.getTiledIterationCount(tileCount));
+                knownInnerDims[innerIndex] = tileCount;
               } else {
                 //loop bounds are unknown at compile time
                 innerDimsKnown=false;
